@@ -557,7 +557,9 @@ def _tree_at_state(ex, n, args, kwargs):
     return _alg_state({k: v for k, v in r.fields.items() if not isinstance(v, Method)})
 
 
-def _oniter_bind():
+def _oniter_bind(vec=False):
+    """vec=False: the learner as a whole (the step state of all environments is one value; N = 1 and N > 1 are both translated);
+    vec=True: N > 1 parallel environments, the step state is the LIST of per-environment states and the vmapped call is a zip"""
     def collect1(ex, n, a, k):
         if len(a) != 5 or k:
             fail(n, "collect_rollout call form")
@@ -573,6 +575,12 @@ def _oniter_bind():
         def call(ex2, n2, a2, k2):
             if len(a2) != 5 or k2 or not (isinstance(a2[4], Vec) and a2[4].ety == "K"):
                 fail(n2, "vmapped collect_rollout call form")
+            if vec:
+                # in_axes (None, None, 0, None, 0): environment i collects from ITS state with ITS key
+                if not isinstance(a2[2], Vec):
+                    fail(n2, "the step state is not per environment")
+                x = f"(kzip2 (fun s__ k__ => collect1 {a2[1].t} s__ k__) {materialise(a2[2])} {materialise(a2[4])})"
+                return (Vec.base(f"(map fst {x})", "O"), Vec.base(f"(map snd {x})", "O"))
             x = f"(collectN {a2[1].t} {a2[2].t} {materialise(a2[4])})"
             return (Sc("O", f"(fst {x})"), Sc("O", f"(snd {x})"))
         return Prim(call)
@@ -580,14 +588,16 @@ def _oniter_bind():
     def train(ex, n, a, k):
         if len(a) != 3 or set(k) != {"key"}:
             fail(n, "train call form")
-        x = f"(train {a[0].t} {a[1].t} {a[2].t} {k['key'].t})"
+        buf = materialise(a[2]) if isinstance(a[2], Vec) else a[2].t
+        x = f"(train {a[0].t} {a[1].t} {buf} {k['key'].t})"
         return (Sc("O", f"(fst (fst {x}))"), Sc("O", f"(snd (fst {x}))"), Sc("O", f"(snd {x})"))
 
     def on_iteration(ex, n, a, k):
         if len(a) != 1 or set(k) != {"key"} or not isinstance(a[0], Obj):
             fail(n, "on_iteration call form")
         c = a[0].fields
-        return Sc("O", f"(cb_iter {c['state'].t} {to_sc(c['iteration_count'], 'Z', n).t} {c['step_state'].t} {c['policy'].t} {c['opt_state'].t} {k['key'].t})")
+        scb = materialise(c['step_state']) if isinstance(c['step_state'], Vec) else c['step_state'].t
+        return Sc("O", f"(cb_iter {c['state'].t} {to_sc(c['iteration_count'], 'Z', n).t} {scb} {c['policy'].t} {c['opt_state'].t} {k['key'].t})")
 
     def iter_ctx(ex, n, a, k):
         names = ["state", "step_state", "env", "policy", "iteration_count", "opt_state", "training_log", "algorithm", "locals"]
@@ -595,9 +605,11 @@ def _oniter_bind():
         if set(f) != set(names):
             fail(n, "IterationContext form")
         return Obj(f, "IterationContext")
-    selfo = Obj({"num_envs": Z("(Z.of_nat N)"), "collect_rollout": Prim(collect1), "train": Prim(train),
+    nenv = Z("(Z.of_nat N)")
+    nenv.not_one = vec
+    selfo = Obj({"num_envs": nenv, "collect_rollout": Prim(collect1), "train": Prim(train),
                  "per_iteration": Prim(lambda ex, n, a, k: a[0] if len(a) == 1 and not k else fail(n, "per_iteration form")), "@name": O("algo")}, "algo")
-    state = _alg_state({"iteration_count": Z("cnt"), "step_state": O("ss"), "env": O("env"), "policy": O("pol"), "opt_state": O("opt"),
+    state = _alg_state({"iteration_count": Z("cnt"), "step_state": vecO("ss") if vec else O("ss"), "env": O("env"), "policy": O("pol"), "opt_state": O("opt"),
                         "callback_state": O("cbs")})
     return {"self": selfo, "state": state, "key": K("k"), "callback": Obj({"on_iteration": Prim(on_iteration), "@name": O("cb")}, "callback"),
             "@IterationContext": Prim(iter_ctx), "@locals": Prim(lambda ex, n, a, k: Static("locals")),
@@ -870,6 +882,12 @@ def _gait_init_out(res, ex):
 _GAIT = "env/unitree/g1/gait.py"
 
 KERNELS = {
+    "C12": [Kernel("oniterN", "algorithm/on_policy.py", "AbstractOnPolicyAlgorithm", "iteration", lambda: _oniter_bind(vec=True),
+                   "{SS X OS BUF LOG CB SCB : Type} (N : nat) (collect1 : X -> SS -> kpath -> SS * BUF) "
+                   "(train : X -> OS -> list BUF -> kpath -> X * OS * LOG) (ss_cb : list SS -> SCB) (cb_iter : CB -> Z -> SCB -> X -> OS -> kpath -> CB) "
+                   "(cnt : Z) (ss : list SS) (pol : X) (opt : OS) (cbs : CB) (k : kpath)",
+                   lambda res, ex: [("step_states", "list SS", term_of(res.fields["step_state"])), ("policy", "X", term_of(res.fields["policy"]))],
+                   opaque_attrs={"callback_state": "ss_cb"})],
     "C11": [Kernel("oniter", "algorithm/on_policy.py", "AbstractOnPolicyAlgorithm", "iteration", _oniter_bind, _ONITER_PARAMS, _oniter_out,
                    opaque_attrs={"callback_state": "ss_cb"})],
     "C20": [Kernel("gait_initial", _GAIT, None, "initial_gait_phase", lambda: {}, "(u : unit)", _gait_init_out),
@@ -1029,7 +1047,7 @@ def coq_text(pid, imports=()):
     return "\n".join(parts)
 
 
-IMPORTS = {"C10": ("Env",), "C19": ("Logging",), "C06": ("Replay",), "C01": ("Env",), "C13": ("Env",), "C04": ("Env", "OnPolicy"), "C05": ("Env", "OnPolicy", "Replay", "OffPolicy"), "C20": ("Gait",), "C11": ("Env", "Observers")}
+IMPORTS = {"C10": ("Env",), "C19": ("Logging",), "C06": ("Replay",), "C01": ("Env",), "C13": ("Env",), "C04": ("Env", "OnPolicy"), "C05": ("Env", "OnPolicy", "Replay", "OffPolicy"), "C20": ("Gait",), "C11": ("Env", "Observers"), "C12": ("Env", "OnPolicy")}
 
 
 def generate(pid, coq_dir: Path):
